@@ -9,7 +9,10 @@ use crate::{
     fragment::{arc, broken_line, circle, line, polygon, rect, Fragment},
     Property,
 };
+#[cfg(not(feature = "verif"))]
 use once_cell::sync::Lazy;
+#[cfg(feature = "verif")]
+use crate::verif::Lazy;
 use std::collections::{BTreeMap, HashMap};
 
 /// a lookup table for character and their corresponding shapes
